@@ -36,6 +36,7 @@ import TableauVerif.Model.Incremental
 import TableauVerif.Model.Rfc3339
 import TableauVerif.Spec.C20Emit
 import TableauVerif.Model.CSV
+import TableauVerif.Model.CsvName
 import TableauVerif.Spec.Grid
 namespace Driver
 open TableauVerif TableauVerif.Model
@@ -389,6 +390,24 @@ def c20 (fn : String) (a : List String) : Option String := do
     some (Spec.C20.holdsTs (← decZone? zone) (← decStr? raw) (← decTRes? obs)).toString
   | _, _ => none
 
+/-! ### CSV workbook naming (xfs/csv.go) -/
+def csvNames (fn : String) (a : List String) : Option String := do
+  match fn, a with
+  | "csv.name", [p] =>
+    some (match Model.CsvName.parseFilename (← decStr? p) with
+      | some (b, s) => s!"file {encStr b} {encStr s}"
+      | none => "err")
+  | "doc.bookname", [p] =>
+    let f ← decStr? p
+    -- `.yml` is not a document extension of the importer: no book
+    some (if Model.CsvName.extOf (Model.CsvName.baseName f) == Str.ofString ".yml" then "err"
+          else s!"name {encStr (Model.CsvName.trimExt (Model.CsvName.baseName f))}")
+  | "csv.book", [p] =>
+    some (match Model.CsvName.bookPattern (← decStr? p) with
+      | some k => s!"key {encStr k}"
+      | none => "err")
+  | _, _ => none
+
 /-! ### C05 (replays judged by "the call returned") -/
 def c05 (fn : String) (a : List String) : Option String := do
   match fn, a with
@@ -618,6 +637,7 @@ def dispatch (line : String) : String :=
       else if fn.startsWith "c12.contig" || fn.startsWith "o.c12.contig" then tp fn args
       else if fn.startsWith "c12." || fn.startsWith "o.c12." then c12 fn args
       else if fn.startsWith "c20." || fn.startsWith "o.c20." then c20 fn args
+      else if fn.startsWith "csv." || fn.startsWith "doc.bookname" then csvNames fn args
       else if fn.startsWith "c05." || fn.startsWith "o.c05." || fn.startsWith "c17.sepcell" || fn.startsWith "o.c17.sepcell" then c05 fn args
       else if fn.startsWith "c11." || fn.startsWith "o.c11." then c11 fn args
       else if fn.startsWith "doc." || fn.startsWith "o.doc." then doc fn args
